@@ -144,9 +144,15 @@ class World:
         self.bm = None
         self.dead = True
 
-    async def restart(self, mode, save=None):
+    async def restart(self, mode, save=None, inflight=False):
         if save is not None:
             self.conf.save_blobs = save            # the setting the next process lifetime runs with
+        if self.bm is not None and inflight:
+            # in-process restart with database writes still queued: no yield to the loop before setup()
+            self.bm.stop()
+            await self.bm.setup()
+            await self.drain()
+            return
         if self.bm is not None and mode == 'stop_same':
             # Component stop/start on the same objects: stop() then setup()
             await self.drain()
@@ -196,6 +202,19 @@ class World:
         finally:
             con.close()
 
+    def lengths(self):
+        """blob_hash -> blob_length, read independently (monitor only; the model does not carry lengths)"""
+        if not os.path.exists(self.db_path):
+            return {}
+        con = sqlite3.connect(self.db_path, timeout=30)
+        try:
+            try:
+                return {hx(h): ln for h, ln in con.execute('select blob_hash, blob_length from blob')}
+            except sqlite3.OperationalError:
+                return {}
+        finally:
+            con.close()
+
     async def announce_lists(self):
         """what the announcer would be handed right now, under both settings (a dead process announces nothing)"""
         if self.storage is None:
@@ -229,7 +248,10 @@ class World:
             return blob, 'busy'
         return blob, None
 
-    async def complete(self, h, length, data):
+    async def complete(self, h, length, data, inflight=False):
+        """inflight: return as soon as the blob is verified -- the file is written and blob_completed() has created
+        the storage.add_blobs task, which has not started yet (the caller must not yield before what it wants to
+        interleave)"""
         blob, early = self._begin_download(h, length)
         if early:
             return early
@@ -240,6 +262,9 @@ class World:
         except OSError:
             writer.close_handle()
             return 'nolength'
+        if inflight:
+            await blob.verified.wait()
+            return 'done'
         await self.drain()
         return 'done'
 
@@ -357,7 +382,12 @@ class World:
         if os.path.isdir(p):
             return
         with open(p, 'wb') as f:
-            f.write(content if content is not None else b'\x5a' * size)
+            if content is not None:
+                f.write(content)
+            elif size > 65536:
+                f.truncate(size)          # sparse: sizes around and above MAX_BLOB_SIZE cost nothing
+            else:
+                f.write(b'\x5a' * size)
 
     def ext_dir(self, n):
         p = os.path.join(self.blob_dir, n)
@@ -480,10 +510,11 @@ async def run_ops(w, case, ops, on_restart, trace):
     for o in ops:
         k = o['op']
         if k == 'restart':
-            before = await w.observe()
-            await w.restart(o.get('mode', 'new'), o.get('save'))
+            # with writes in flight the pre-state cannot be observed without yielding to them: after-only clauses
+            before = None if o.get('inflight') else dict(await w.observe(), lengths=w.lengths())
+            await w.restart(o.get('mode', 'new'), o.get('save'), inflight=bool(o.get('inflight')))
             r = 'done'
-            on_restart(before, await w.observe())
+            on_restart(before, dict(await w.observe(), lengths=w.lengths()))
         elif k == 'ext_file':
             n = resolve_name(case, o['n'])
             content = None
@@ -506,7 +537,8 @@ async def run_ops(w, case, ops, on_restart, trace):
         elif w.dead:
             r = 'dead'
         elif k == 'complete':
-            r = await w.complete(o['h'], o['len'], blob_data(case, o['h']) if o['h'] in case['blobs'] else b'')
+            r = await w.complete(o['h'], o['len'], blob_data(case, o['h']) if o['h'] in case['blobs'] else b'',
+                                 inflight=bool(o.get('inflight')))
         elif k == 'touch':
             r = await w.touch(o['h'], o['len'])
         elif k == 'crash_write':
@@ -623,9 +655,10 @@ def monitor_restart(before, after, prev_restart_after):
     files = {n for n, k, _ in after['disk'] if k == 'f'}
     dirs = {n for n, k, _ in after['disk'] if k == 'd'}
     blob_files = {n for n in files if STRICT_HASH.fullmatch(unhx(n))}
-    rows_b = dict(before['db'])
+    rows_b = dict(before['db']) if before is not None else None
     rows_a = dict(after['db'])
-    if before['disk'] != after['disk']:
+    sizes = {n: sz for n, k, sz in after['disk'] if k == 'f'}
+    if before is not None and before['disk'] != after['disk']:
         return 'the start changed the blob directory'
     # 1. everything reported as completed has its file (a planted directory is outside the property: exempt)
     for h in after['completed']:
@@ -643,7 +676,7 @@ def monitor_restart(before, after, prev_restart_after):
         if rows_a.get(n) != 'finished':
             return f'blob file {unhx(n)[:12]}.. is present but recorded as {rows_a.get(n)!r}'
     # 3. finished rows whose file has disappeared are downgraded; finished rows have their file
-    for h, st in rows_b.items():
+    for h, st in (rows_b or {}).items():
         if st == 'finished' and h not in files and h not in dirs:
             if rows_a.get(h) != 'pending':
                 return f'{unhx(h)[:12]}.. was finished, its file is gone, now recorded as {rows_a.get(h)!r}'
@@ -651,14 +684,18 @@ def monitor_restart(before, after, prev_restart_after):
         if st == 'finished' and h not in files and h not in dirs:
             return f'{unhx(h)[:12]}.. is recorded as finished after the start but has no file'
     # what must not change: no row dropped, rows invented only for present files, other rows untouched
-    for h, st in rows_b.items():
+    for h, st in (rows_b or {}).items():
         if h not in rows_a:
             return f'the start deleted the row of {unhx(h)[:12]}..'
         if h not in files and h not in dirs and st != 'finished' and rows_a[h] != st:
             return f'the start changed the row of absent {unhx(h)[:12]}.. from {st} to {rows_a[h]}'
-    for h in rows_a:
-        if h not in rows_b and h not in files:
-            return f'the start invented a row for {unhx(h)[:12]}.. which has no file'
+    if rows_b is not None:
+        for h in rows_a:
+            if h not in rows_b and h not in files:
+                return f'the start invented a row for {unhx(h)[:12]}.. which has no file'
+            if h not in rows_b and h in files and after.get('lengths', {}).get(h) != sizes[h]:
+                return (f'the start recorded {unhx(h)[:12]}.. with length {after.get("lengths", {}).get(h)!r}, '
+                        f'its file has {sizes[h]} bytes')
     # 4. a further restart with nothing changed reports exactly the files present
     if prev_restart_after is not None:
         rep = set(after['completed'])
@@ -678,6 +715,8 @@ def monitor_restart(before, after, prev_restart_after):
 # ------------------------------------------------------------------------------------------------
 
 LENGTHS = [1, 2, 15, 16, 17, 31, 32, 33, 64, 100, 255, 256, 1000]
+# sizes of files dropped into the blob directory: small ones and the MAX_BLOB_SIZE boundary (sparse files)
+EXT_SIZES = [0, 1, 5, 16, 100, 100, REAL_MAX - 1, REAL_MAX, REAL_MAX + 1, REAL_MAX + 1, 3 * REAL_MAX + 5]
 ODD_VALID = [',' * 96, 'c' * 95 + '\n', '0123456789abcdef' * 6, ',0' * 48]
 INVALID = ['a' * 95, 'a' * 97, 'A' * 96, 'g' + 'a' * 95, 'a' * 95 + ' ', 'readme.txt', 'a' * 94 + '\n\n', '\n' + 'a' * 95]
 
@@ -737,7 +776,7 @@ def gen_case(rng, nops, with_dirs=False, inject=True, toggle_save=False):
             if lit in blobs and rng.random() < 0.5:
                 ops.append({'op': 'ext_file', 'n': n, 'size': len(blobs[lit]) // 2, 'true_content': True})
             else:
-                ops.append({'op': 'ext_file', 'n': n, 'size': rng.choice([0, 1, 5, 16, 100])})
+                ops.append({'op': 'ext_file', 'n': n, 'size': rng.choice(EXT_SIZES)})
         elif c < 0.9 or not with_dirs:
             ops.append({'op': 'ext_remove', 'n': n})
         else:
@@ -756,7 +795,8 @@ def gen_case(rng, nops, with_dirs=False, inject=True, toggle_save=False):
             elif c < 0.44:
                 ops.append({'op': 'ext_file', 'n': h, 'size': ln, 'true_content': True})
             elif c < 0.54:
-                ops.append({'op': 'ext_file', 'n': h, 'size': rng.choice([0, 1, ln + 1, max(ln - 1, 0)])})
+                ops.append({'op': 'ext_file', 'n': h, 'size': rng.choice([0, 1, ln + 1, max(ln - 1, 0), REAL_MAX,
+                                                                          REAL_MAX + 1])})
             elif c < 0.66:
                 ops.append({'op': 'ext_remove', 'n': h})
             elif c < 0.78:
@@ -769,8 +809,19 @@ def gen_case(rng, nops, with_dirs=False, inject=True, toggle_save=False):
             else:
                 ops.append({'op': 'restart', 'mode': rng.choice(['new', 'stop_new', 'stop_same'])})
 
+    def inflight_restart():
+        # a blob completes, its database write is still queued, (its file vanishes,) stop()+setup() on the same
+        # manager without yielding to the loop in between: the queued write must be ordered before the start-up sync
+        h = rng.choice(pool)
+        ops.append({'op': 'complete', 'h': h, 'len': len(blobs[h]) // 2, 'inflight': True, 'q': True})
+        if rng.random() < 0.7:
+            ops.append({'op': 'ext_remove', 'n': h, 'q': True})
+        ops.append({'op': 'restart', 'mode': 'stop_same', 'inflight': True})
+
     while len(ops) < nops:
         c = rng.random()
+        if rng.random() < 0.05:
+            inflight_restart()
         if rng.random() < 0.08:
             ops.append({'op': 'ext_mark', 'h': any_name()})       # should_announce=1, as set_announce / store_stream do
         if c < 0.12:
@@ -1061,7 +1112,8 @@ def main(run):
                 'dead process) / publish (0-4 content blobs through the real create_stream with the chunk size patched small, one '
                 'real 2 MiB-chunk stream) / publish_crash(k files written, j recorded) / delete (1-3 names, with or without rows, '
                 'sometimes an invalid name) / stream_delete / ext_file (junk, true content, size 0) / ext_remove / ext_db (forced '
-                'row), ext_mark (should_announce=1 on a row) / restart (fresh objects, stop()+fresh, stop()+setup() on the same '
+                'row; sizes 0..100 and MAX_BLOB_SIZE-1, MAX_BLOB_SIZE, +1, 3x), ext_mark (should_announce=1 on a row) / '
+                'in-process restart with the database write of a just completed blob still queued / restart (fresh objects, stop()+fresh, stop()+setup() on the same '
                 'object; in a quarter of the histories some '
                 'restarts switch config.save_blobs off or on), always ending with two restarts; '
                 'pre-state enumeration: every combination of (absent|file|directory) x (no row|pending|finished) per name; a '
